@@ -135,3 +135,39 @@ def token_rule_names():
                 callable(getattr(v, '__func__', v)):
             out.append(k)
     return out
+
+
+def abstract_operator_table(repo):
+    """The operator table of a default YaqlFactory, computed by the abstract
+    evaluator from factory.py's source (constructor + _build_operator_table):
+    {symbol: record}.  Records are what the code builds -- plain tuples or
+    objects with named fields.  None when the construction is outside the
+    evaluator's fragment."""
+    from sa import absint
+    mod = repo.module('yaql.language.factory')
+    ci = mod.classes.get('YaqlFactory')
+    if ci is None:
+        return None
+    m = repo.find_method(ci, '_build_operator_table')
+    if m is None or len(m.params()) != 2:
+        return None
+    it = absint.Interp(repo, mod)
+    try:
+        fac = it.invoke(('global', ci.dotted), [], {})
+        names = iter(['%d' % i for i in range(7, 400)])
+        out = it.invoke(('bound', m, fac), [names], {})
+    except (absint.Unsupported, absint._Raise, RecursionError):
+        return None
+    if not isinstance(out, absint.Obj):
+        return None
+    return out
+
+
+def record_items(rec):
+    """The fields of an operator record in order, whatever its type."""
+    from sa import absint
+    if isinstance(rec, (tuple, list)):
+        return list(rec)
+    if isinstance(rec, absint.Obj) and '__items__' in rec.attrs:
+        return list(rec.attrs['__items__'])
+    return None
